@@ -146,6 +146,8 @@ class ProxyProtocolV1(object):
     @classmethod
     def __get_pp_port(cls, port_string, which):
         try:
+            if not port_string.isdigit():
+                raise ValueError(port_string)
             port_num = int(port_string)
         except ValueError:
             msg = 'Invalid proxy protocol {0} port format'.format(which)
